@@ -27,6 +27,11 @@ CHECKS["C08"] = ("exploration",
          "4.C08", "generated grammars (seeded proptest choice streams: clean base + one planted mistake) x construction-known verdict oracle (library Error variant, binary exit status/diagnostic keyword)",
          "trusted: Appendix B (what counts as clean) and the planted-mistake constructors; cycle cases are judged through the binary only; one known finding (juxtaposed literal + definition reference inside a definition) has a dedicated witness and is avoided by construction")
 
+CHECKS["C11"] = ("exploration",
+         "Exhaustive over all 2^5 definition subsets x {X, PATH, DIRECTORY} x 9 reference positions x 4 shells x 2 statement orders: the compiled automaton, the command functions read from the emitted script, a metamorphic comparison (other shells' definitions removed) and, for bash, execution of the script all have to show the definition the rule selects; plus random grammars with several specialised names.",
+         "4.C11", "exhaustive enumeration of definition subsets/positions + seeded random grammars x oracle: rule-implementing reference semantics, script reader, metamorphic script equality, bash execution",
+         "trusted: reference semantics (model.rs Resolver), command-function reader; fish/zsh/pwsh functions are read, not executed")
+
 NOT_YET = {
 }
 
